@@ -198,7 +198,7 @@ def run(ctx):
     n = ctx.scale(400, 6000)
     scripts = ["honest", "flip-client-hello", "flip-server-hello", "foreign-root", "resigned", "other-session", "wrong-token",
                "other-key-challenge", "dup-reorder", "tofu", "pinned-other", "trunc-ext", "early-app", "no-answer", "stacked", "early-send",
-               "late-hello"]
+               "late-hello", "rekey-attempt"]
     cases, outputs, logs = [], {}, {}
     for i in range(n):
         script = scripts[i % len(scripts)] if i < 3 * len(scripts) else rng.choice(scripts + ["flip-server-hello"] * 4)
@@ -213,6 +213,9 @@ def run(ctx):
     for c in cases:
         monitor(real, c, logs[core.case_id(c)], ctx)
         if ctx.failures:
+            return
+        # a server-side connection answers one hello: its key never changes once it has sealed a datagram under it
+        if connlib.key_stability_monitor(c, logs[core.case_id(c)], ctx, endpoints=("s",)):
             return
     # ---- the same handshake through the real server loop: honest clients, a network that duplicates (also one iteration late)
     scases, souts, slogs = [], {}, {}
